@@ -14,6 +14,7 @@ func init() {
 		level:       "other",
 		explanation: "Cursor coherence of every client transfer loop and argument agreement of every server read/write site, decided by symbolic (affine) comparison of SSA values: the offset sent is start+cursor, the buffer region handed over starts at the same cursor, the cursor advances by exactly the bytes the iteration covers, the length field equals the chunk's length, chunks are bounded by maxPacket; servers pass the packet's own offset and buffer to the backing object and answer with exactly the bytes it returned; the server clamps reads to its maximum. Necessary conditions of byte-exact transfer; equality of bytes after reordering is not decided.",
 		run:         runC01,
+		quickExtra:  []BuildConfig{cfg386},
 		assumptions: []string{"the backing object's ReadAt/WriteAt honour their io contracts", "the client's packet size does not exceed the server's maximum (premise of the property)"},
 	})
 }
@@ -162,9 +163,25 @@ func termIn(t term, set []term) bool {
 
 func isZero(t term) bool { k, ok := t.isConst(); return ok && k == 0 }
 
+// c01TransferSitesOnly: runC01 is asked for its R1 alone (the client's transfer sites), by C12.R13
+var c01TransferSitesOnly bool
+
 func runC01(c *Ctx) {
 	p := c.P
 	pos := func(in ssa.Instruction) string { return p.Pos(in.Pos()) }
+	if !c01TransferSitesOnly {
+		runC01Shared(c)
+	}
+	runC01TransferSites(c)
+	if c01TransferSitesOnly {
+		return
+	}
+	_ = pos
+	runC01Rest(c)
+}
+
+func runC01Shared(c *Ctx) {
+	p := c.P
 	// R16 (shared with C12.R1): the calls that move the implicit position hold the File exclusively, so that two of them
 	// on one File cannot both start at the same offset
 	if fileT := p.NamedType(p.Sftp, "File"); fileT != nil {
@@ -175,6 +192,11 @@ func runC01(c *Ctx) {
 	// R18 (shared with C13.R4): a sequential chunk loop ends with the failing chunk's error and a count that includes
 	// what that chunk still moved
 	checkSequentialLoops(c, "R18")
+}
+
+func runC01TransferSites(c *Ctx) {
+	p := c.P
+	pos := func(in ssa.Instruction) string { return p.Pos(in.Pos()) }
 	isOffsetField := func(key string) bool { return strings.HasPrefix(key, "fld:") && strings.HasSuffix(key, ".offset") }
 
 	// start offset of a transfer: the `off` parameter of the enclosing File method, or a load of f.offset
@@ -218,6 +240,14 @@ func runC01(c *Ctx) {
 				O, L := affineOf(offV), affineOf(lenV)
 				loops := loopsOf(fn)
 				lp := innermostLoop(loops, a.Block())
+				// (vi) the offset is computed in 64 bits: no conversion on the way narrows it (int is 32 bits on 386)
+				nar := narrowingIn(p, offV)
+				c.check(nar == nil, "R1", site+" (vi) offset computed in 64 bits", pos(a), "no narrowing conversion in the offset expression", func() string {
+					if nar == nil {
+						return ""
+					}
+					return "the offset passes through " + nar.Type().String() + " (" + p.Pos(nar.Pos()) + "), which is narrower than the 64-bit position on this platform: a transfer at or beyond 2 GiB goes to another place in the file"
+				}())
 
 				// (v) length field equals the chunk length
 				if typ == "sshFxpWritePacket" {
@@ -433,7 +463,9 @@ func runC01(c *Ctx) {
 	} else {
 		c.missing("R1", "(*File).readAt")
 	}
+}
 
+func runC01Rest(c *Ctx) {
 	runC01R2(c)
 	runC01Server(c)
 	// R6: with the allocator, the page holding a request (and a WRITE's data) must be filed under that request's
@@ -1476,4 +1508,50 @@ func bufferStartsAsParam(fn *ssa.Function, name string) bool {
 		}
 	})
 	return found
+}
+
+// narrowingIn: a conversion of an integer to a narrower integer type (under the sizes of the configuration analysed)
+// in the expression that computes v (through arithmetic, conversions and joins).
+func narrowingIn(p *Program, v ssa.Value) *ssa.Convert {
+	sizes := types.SizesFor("gc", p.Cfg.GOARCH)
+	if sizes == nil {
+		return nil
+	}
+	isInt := func(t types.Type) bool {
+		b, ok := t.Underlying().(*types.Basic)
+		return ok && b.Info()&types.IsInteger != 0
+	}
+	seen := map[ssa.Value]bool{}
+	var walk func(v ssa.Value, d int) *ssa.Convert
+	walk = func(v ssa.Value, d int) *ssa.Convert {
+		if v == nil || seen[v] || d > 12 {
+			return nil
+		}
+		seen[v] = true
+		switch x := v.(type) {
+		case *ssa.Convert:
+			if isInt(x.Type()) && isInt(x.X.Type()) && sizes.Sizeof(x.Type()) < sizes.Sizeof(x.X.Type()) {
+				return x
+			}
+			return walk(x.X, d+1)
+		case *ssa.ChangeType:
+			return walk(x.X, d+1)
+		case *ssa.BinOp:
+			switch x.Op {
+			case token.ADD, token.SUB, token.MUL:
+				if r := walk(x.X, d+1); r != nil {
+					return r
+				}
+				return walk(x.Y, d+1)
+			}
+		case *ssa.Phi:
+			for _, e := range x.Edges {
+				if r := walk(e, d+1); r != nil {
+					return r
+				}
+			}
+		}
+		return nil
+	}
+	return walk(v, 0)
 }
